@@ -64,6 +64,14 @@ func (sb *switchboard) addConn(conn net.Conn) {
 	common.VerifPoint("addConn.betweenCountAndStore")
 	atomic.StoreUint32(&sb.connsCount, connId+1)
 	sb.addConnM.Unlock()
+	if atomic.LoadUint32(&sb.broken) == 1 {
+		// The session was torn down while this connection was still being prepared (the server looks the
+		// session up, completes the handshake and only then adds the connection). closeAll may have missed
+		// it: without this the connection stayed open on a dead session - the peer believed it had joined,
+		// used it, and everything it sent there was dropped silently
+		conn.Close()
+		return
+	}
 	go sb.deplex(conn)
 }
 
